@@ -11,7 +11,7 @@ def find(ctx, oblig, diag):
         cases += [["sigv4-h2"]]
     if "v4_header" in oblig or "undecided" in oblig:
         cases += [["sigv4-scope"]]
-        cases += [["sigv4-body", m, "/bkt/key", b, mode] for m in ("DELETE", "PUT") for b in ("x", "hello world") for mode in ("signed", "empty-hash")]
+        cases += [["sigv4-body", m, "/bkt/key", b, mode] for m in ("DELETE", "PUT") for b in ("x", "hello world") for mode in ("signed", "empty-hash", "empty-hash-no-length", "empty-hash-zero-length")]
         cases += [["sigv4", "header", p] for p in PATHS] + [["sigv4-search"]]
     for c in cases:
         r = run(c)
